@@ -146,6 +146,7 @@ def main():
     for td, pr in (('float32', 'float64'), ('float64', 'float32'), ('int8', 'float32'), ('uint8', 'float64'), ('float32', 'float32')):
         units += [('inv', 'pk1', td, pr), ('inv', 'tk1', td, pr), ('inv', 'tt', td, pr)]
     units += [('miainv', 'float32', 3, -1, 2), ('miainv', 'uint8', 3, 0, 64)]
+    units += [('k2n', 2, 1, 2, 'float32', 'float64'), ('k2n', 1, 2, 3, 'uint8', 'float32'), ('k2n', 2, 2, 2, 'int16', 'float64'), ('k2n', 1, 1, 9, 'float64', 'float32')]
     units += [('mia', 1, 1, 1, 2, 2, 'float32'), ('mia', 2, 1, 1, 1, 2, 'float64'), ('tt', 2, 2, 'float32', 'float64'), ('tt', 3, 1, 'int8', 'float32'), ('tm', 'static', 'float64'), ('tm', 'static', 'float32'), ('frames',)]
     def work(sub, kind, *args):
         if kind == 'upd': C3.update_additivity(u, sub, args[0], args[1], args[2], args[3], timeout)
@@ -167,6 +168,7 @@ def main():
             fn_, key_, exp_, dist_ = {'pk1': (KI.partitioned_core1, KN.PM + '::PartitionedDistinguisherMixin._accumulate_core_1', (1, 1, 1), 'SNR'), 'tk1': (KI.template_core1, KN.TM + '::_TemplateBuildDistinguisherMixin._accumulate_core_1', (1, 1), 'TemplateBuild'),
                                       'tt': (KI.ttest_core, KN.TT + '::TTestThreadAccumulator._update_core', (1,), 'ttest')}[which]
             KI.report(sub, fn_(u, td, pr), '%s loop invariants, all extents symbolic, %s->%s' % ({'pk1': 'partitioned kernel 1', 'tk1': 'template build kernel 1', 'tt': 't-test kernel'}[which], td, pr), key_, timeout, exp_, native, dict(kind='kernel', dist=dist_, which=1, tdtype=td, precision=pr))
+        elif kind == 'k2n': KI.report(sub, KI.partitioned_core2(u, *args), 'partitioned kernel 2, number of traces symbolic, %d samples x %d words x %d classes, %s->%s' % args, KN.PM + '::PartitionedDistinguisherMixin._accumulate_core_2', timeout, (), native, dict(kind='kernel', dist='SNR', which=2, tdtype=args[3], precision=args[4]), sat_is_undecided=True)
         elif kind == 'miainv': KI.report(sub, KI.mia_core(u, *args), 'MIA kernel loop invariants, all extents symbolic, %s traces, %d bins from %s of width %s' % args, KN.MM + '::MIADistinguisherMixin._accumulate_core', timeout, [(1, 1, 1), (1, 1, 0)], native, dict(kind='kernel', dist='MIA', tdtype=args[0]))
         elif kind == 'tm': template_matching_update(u, sub, args[0], args[1], timeout)
         elif kind == 'frames': compute_frames(u, sub, timeout)
